@@ -24,7 +24,8 @@ WALL_CAP = {"quick": 240.0, "thorough": 3300.0}
 STATE_MEASURE = "distinct (route, action, set of operation kinds, set of sections edited, outcome class of the reference model) combinations"
 
 RULE = ("one case = (generated model, sequence of 1-8 override/remove/add operations on any section and key - repeated keys, "
-        "whitespace variants of existing keys, missing keys/sections, target changes, removal of a section's last key, values "
+        "whitespace variants of existing keys, missing keys/sections, items removed or added earlier in the same sequence, items that "
+        "other items refer to through ${SECTION:KEY} placeholders, target changes, removal of a section's last key, values "
         "containing '=' and ':' - applied through ConfigParser(overrides=, additional=) in list order or spread over several "
         "potable -e/-r/-a options, followed by a tabulation or a --list-items/--list-item-labels/--item-value query) compared "
         "with the same edits applied by hand to the INI text (reference model) and parsed in a reference child. "
